@@ -5,4 +5,7 @@ package utils
 
 import "errors"
 
-var ErrInvalidSize = errors.New("invalid size")
+var (
+	ErrInvalidSize     = errors.New("invalid size")
+	ErrTooManyDecimals = errors.New("too many decimals")
+)
